@@ -83,6 +83,8 @@ def _case(draw, tier):
         "workers": draw(st.integers(1, 4)),
         "tool": tool,
         "tool_level": draw(st.sampled_from(["psm", "psm", "peptide"])),
+        # '#' inside text fields (SEQUEST-style M# modifications, accessions with a #n suffix): an ordinary character
+        "hash": draw(st.sampled_from([False, False, True])),
     }
 
 
@@ -132,6 +134,10 @@ def check(case):
             df, meta = datagen.psm_frame(case["seed"] + 101 * ci, coll["mults"], key_arity=case["key"], colliding_keys=bool(case.get("collide")), crossed_levels=bool(case.get("crossed")), n_noise=1,
                                          file_index=ci, with_rid=False, n_peptides=case["n_pep"],
                                          label_enc=case["label_enc"], extra_levels=case["extra"])
+            if case.get("hash"):
+                df = df.copy()
+                df["Peptide"] = [p_[:2] + "#" + p_[2:] if sum(map(ord, p_)) % 3 == 0 else p_ for p_ in df["Peptide"]]
+                df["Proteins"] = [p_ + "#2" if sum(map(ord, p_)) % 2 == 0 else p_ for p_ in df["Proteins"]]
             path = tmp / f"in{ci}{ext}"
             datagen.write_table(df, path)
             psms.append(datagen.build_ondisk(path, df, meta))
@@ -235,6 +241,8 @@ def check(case):
     classes.append(case["fmt"])
     if case["conf_chunk"]:
         classes.append("small-conf-chunk")
+    if case.get("hash"):
+        classes.append("hash-character-in-text-fields")
     nontrivial = nt_flags["winner_not_first"] and (nt_flags["peptide_multi"] or not case["rollup"])
     return {"nontrivial": nontrivial, "classes": classes, "counters": counters}
 
@@ -245,7 +253,8 @@ def _validate_level(case, rows, lname, lcol, tdf, ddf, counters, nt, ci, psm_obs
     for name, f in (("targets", tdf), ("decoys", ddf)):
         if f is None:
             continue
-        require(list(f.columns) == want_cols, "columns", f"{name}.{tag}: {list(f.columns)} != {want_cols}")
+        # the columns are identified by name; their order in the file is not part of the statement
+        require(sorted(f.columns) == sorted(want_cols), "columns", f"{name}.{tag}: {list(f.columns)} != {want_cols}")
     # ---- each output row is one input row -------------------------------------
     seen_ids = set()
     out_rows = []  # (PSMId, is_target_file)
